@@ -146,6 +146,36 @@ def apply(it, fn, args, dest_ty, term, caller, depth):
         if a.is_conc() and b.is_conc():
             return none() if a.val + b.val >= (1 << a.w) else some(r)
         return some(r)
+    # ---- RangeInclusive<int>: (start, end, exhausted)
+    if path.startswith("core::ops::RangeInclusive") or path.startswith("std::ops::RangeInclusive") or path.startswith("core::ops::range::RangeInclusive"):
+        RI = "std::ops::RangeInclusive"
+        if name == "new" and len(args) == 2:
+            return Adt(RI, 0, [args[0], args[1], mkbool(False)])
+        if name in ("start", "end") and len(args) == 1 and isinstance(args[0], Ref):
+            return Ref(args[0].cell, tuple(args[0].path) + (("f", 0 if name == "start" else 1),))
+        if name == "into_inner" and len(args) == 1 and isinstance(args[0], Adt):
+            return Tup([args[0].fields[0], args[0].fields[1]])
+    if name in ("contains", "is_empty", "into_iter") and args and isinstance(deref_val(it, args[0]), Adt) and deref_val(it, args[0]).name.endswith("ops::RangeInclusive"):
+        rg = deref_val(it, args[0])
+        s_, e_ = rg.fields[0], rg.fields[1]
+        if name == "contains" and len(args) == 2:
+            x = deref_val(it, args[1])
+            lo = it.binop("Ge", x, s_, "bool")
+            if isinstance(lo, Int) and lo.is_conc() and not lo.val:
+                return mkbool(False)
+            hi = it.binop("Le", x, e_, "bool")
+            if isinstance(lo, Int) and lo.is_conc() and isinstance(hi, Int) and hi.is_conc():
+                return mkbool(bool(lo.val and hi.val))
+            raise Undecided("RangeInclusive::contains(%r)" % (x,))
+        if name == "is_empty":
+            gt = it.binop("Gt", s_, e_, "bool")
+            if isinstance(gt, Int) and gt.is_conc():
+                return gt
+            raise Undecided("RangeInclusive::is_empty")
+        if name == "into_iter" and isinstance(e_, Int):
+            if e_.is_conc() and e_.val == (1 << e_.w) - 1:
+                raise Unsupported("iteration of a RangeInclusive ending at the maximum value")
+            return Adt("std::ops::Range", 0, [s_, bv.binop("Add", e_, e_.like(val=1))])
     if name == "contains" and len(args) == 2 and isinstance(deref_val(it, args[0]), Adt) and deref_val(it, args[0]).name.endswith("ops::Range"):
         rg = deref_val(it, args[0])
         x = deref_val(it, args[1])
@@ -329,6 +359,33 @@ def apply(it, fn, args, dest_ty, term, caller, depth):
                 return none()
 
     # ---- Vec / slices
+    if (path.startswith("core::vec::Vec::<") or path.startswith("core::vec::Vec<") or rpath.startswith("core::vec::Vec")) and \
+            name in ("dedup_by", "dedup_by_key", "retain", "retain_mut") and len(args) == 2 and isinstance(args[0], Ref):
+        v = it.read(args[0].cell, args[0].path)
+        if isinstance(v, VecV):
+            def truth(x, what):
+                if isinstance(x, Int) and x.is_conc():
+                    return bool(x.val)
+                raise Undecided("%s predicate of Vec::%s yields %r" % (what, name, x))
+            out = []
+            for e in v.elems:
+                if name in ("retain", "retain_mut"):
+                    if truth(call_callable(it, args[1], [Ref(Cell(e, "retain-item"))], term, caller, depth), "retain"):
+                        out.append(e)
+                    continue
+                if not out:
+                    out.append(e)
+                    continue
+                if name == "dedup_by":
+                    same = truth(call_callable(it, args[1], [Ref(Cell(e, "dedup-next")), Ref(Cell(out[-1], "dedup-prev"))], term, caller, depth), "same-bucket")
+                else:
+                    ka = call_callable(it, args[1], [Ref(Cell(e, "dedup-next"))], term, caller, depth)
+                    kb = call_callable(it, args[1], [Ref(Cell(out[-1], "dedup-prev"))], term, caller, depth)
+                    same = truth(it.binop("Eq", ka, kb, "bool"), "key equality")
+                if not same:
+                    out.append(e)
+            it.write(args[0].cell, args[0].path, VecV(out))
+            return Tup([])
     if path.startswith("core::vec::Vec::<") or path.startswith("core::vec::Vec<") or rpath.startswith("core::vec::Vec"):
         r = vec_model(it, name, fn, args, dest_ty)
         if r is not NotImplemented:
@@ -372,6 +429,23 @@ def apply(it, fn, args, dest_ty, term, caller, depth):
                     raise Diverge("split_at(%d) of a slice of length %d" % (mid, n))
                 r0 = args[0]
                 return Tup([Ref(r0.cell, r0.path, off, mid), Ref(r0.cell, r0.path, off + mid, n - mid)])
+        if name in ("sort", "sort_unstable") and len(args) == 1:
+            sq = seq_of(it, args[0])
+            if sq is not None:
+                v, off, n = sq
+                el = list(v.elems[off:off + n])
+                if all(isinstance(e, Int) and e.is_conc() for e in el):
+                    el.sort(key=lambda e: e.sval() if e.signed else e.val)
+                    it.write(args[0].cell, args[0].path, type(v)(list(v.elems[:off]) + el + list(v.elems[off + n:])))
+                    return Tup([])
+        if name == "contains" and len(args) == 2:
+            sq = seq_of(it, args[0])
+            x = deref_val(it, args[1])
+            if sq is not None and isinstance(x, Int) and x.is_conc():
+                v, off, n = sq
+                el = v.elems[off:off + n]
+                if all(isinstance(e, Int) and e.is_conc() for e in el):
+                    return mkbool(any(e.val == x.val for e in el))
         if name == "len":
             return it.slice_len(args[0])
         if name == "is_empty":
@@ -380,6 +454,15 @@ def apply(it, fn, args, dest_ty, term, caller, depth):
                 return mkbool(n.val == 0)
         if name in ("as_ptr", "as_mut_ptr"):
             return args[0]
+    if path in ("std::ptr::eq", "core::ptr::eq") and len(args) == 2 and isinstance(args[0], Ref) and isinstance(args[1], Ref):
+        a, b = args
+        return mkbool(a.cell is b.cell and tuple(a.path) == tuple(b.path) and (a.off or 0) == (b.off or 0))
+    if (name == "to_vec" and "slice::<impl [" in path and len(args) == 1) or \
+            (name == "to_owned" and fn.get("trait", "").endswith("ToOwned") and len(args) == 1 and (fn.get("targs") or [""])[0].startswith("[")):
+        sq = seq_of(it, args[0])
+        if sq is not None:
+            v, off, n = sq
+            return VecV(list(v.elems[off:off + n]))
     if path == "core::array::<impl [T; N]>::as_slice" or name in ("as_slice", "as_mut_slice") and isinstance(args[0], Ref):
         b = it.find_body(fn)
         if b is None:
@@ -511,6 +594,21 @@ def vec_model(it, name, fn, args, dest_ty):
         return some(Ref(r.cell, r.path + (("e", len(v.elems) - 1),)))
     if name in ("as_slice", "as_mut_slice", "deref", "deref_mut"):
         return r
+    conc = all(isinstance(e, Int) and e.is_conc() for e in v.elems)
+    if name in ("sort", "sort_unstable") and len(args) == 1 and conc:
+        it.write(r.cell, r.path, VecV(sorted(v.elems, key=lambda e: e.sval() if e.signed else e.val)))
+        return Tup([])
+    if name == "dedup" and len(args) == 1 and conc:
+        out = []
+        for e in v.elems:
+            if not out or out[-1].val != e.val:
+                out.append(e)
+        it.write(r.cell, r.path, VecV(out))
+        return Tup([])
+    if name == "contains" and len(args) == 2 and conc:
+        x = deref_val(it, args[1])
+        if isinstance(x, Int) and x.is_conc():
+            return mkbool(any(e.val == x.val for e in v.elems))
     return NotImplemented
 
 
@@ -545,6 +643,8 @@ def index_model(it, base, idx):
             s, e = Int(64, False, val=0), idx.fields[0]
         elif nm == "RangeFull":
             s, e = Int(64, False, val=0), Int(64, False, val=n)
+        elif nm == "RangeInclusive" and len(idx.fields) == 3 and isinstance(idx.fields[1], Int) and idx.fields[1].is_conc():
+            s, e = idx.fields[0], Int(64, False, val=idx.fields[1].val + 1)
         else:
             return NotImplemented
         if not (s.is_conc() and e.is_conc()):
